@@ -43,6 +43,11 @@ func RepoDir() string {
 
 // Program is the loaded, type-checked view of /repo/src.
 type Program struct {
+	// Orig is the program before new helper functions were expanded in place
+	// (nil when nothing was expanded). Rule sets that follow helper calls
+	// themselves, with parameter binding, analyse this one.
+	Orig           *Program
+	Inlined        *Program // the same tree with the calls of new helper functions expanded in place (nil when there are none)
 	Fset           *token.FileSet
 	Pkgs           []*packages.Package          // module packages, sorted by path
 	All            map[string]*packages.Package // every package incl. dependencies
@@ -52,6 +57,7 @@ type Program struct {
 	WithTests      bool
 	GOOS           string
 	Shared         map[string]interface{} // memo space for engines (no-return set, graphs, SSA)
+	Overlay        map[string][]byte      // in-memory file contents the program was parsed from (file name -> source), for files that differ from disk
 }
 
 // normalise computes the overlay: exact duplicate top-level const declarations
@@ -125,6 +131,50 @@ func Load(withTests bool, goos string) (*Program, error) {
 	if err != nil {
 		return nil, err
 	}
+	p, err := load1(withTests, goos, srcRoot, overlay, notes)
+	if err != nil {
+		return nil, err
+	}
+	// expand calls of functions that are not in the baseline (helper extraction)
+	extra, inotes := inlineNewHelpers(p)
+	if len(extra) == 0 {
+		p.Normalisations = append(p.Normalisations, inotes...)
+		return p, nil
+	}
+	merged := map[string][]byte{}
+	for k, v := range overlay {
+		merged[k] = v
+	}
+	for k, v := range extra {
+		merged[k] = v
+	}
+	if dir := os.Getenv("RS_DUMP_INLINE"); dir != "" {
+		for k, v := range extra {
+			os.WriteFile(filepath.Join(dir, strings.ReplaceAll(strings.TrimPrefix(k, srcRoot+"/"), "/", "__")), v, 0o644)
+		}
+	}
+	p2, err2 := load1(withTests, goos, srcRoot, merged, notes)
+	if err2 != nil || len(p2.LoadErrors) > len(p.LoadErrors) || p2.MainTypeErrors > p.MainTypeErrors {
+		why := ""
+		if err2 != nil {
+			why = err2.Error()
+		} else if len(p2.LoadErrors) > 0 {
+			why = p2.LoadErrors[len(p2.LoadErrors)-1]
+		}
+		p.Normalisations = append(p.Normalisations, "expansion of new helper functions abandoned (the rewritten sources do not type-check: "+why+"); the original sources are analysed")
+		return p, nil
+	}
+	p2.Normalisations = append(p2.Normalisations, inotes...)
+	// both views are kept: the driver runs every rule set on the tree as written
+	// and, where something stays open, on the expanded view; an obligation
+	// discharged on either of two equivalent programs is discharged
+	p.Normalisations = append(p.Normalisations, inotes...)
+	p.Inlined = p2
+	p2.Orig = p
+	return p, nil
+}
+
+func load1(withTests bool, goos string, srcRoot string, overlay map[string][]byte, notes []string) (*Program, error) {
 	env := append(os.Environ(), "GOWORK=off", "GOFLAGS=-mod=mod", "GOPROXY=off", "GOSUMDB=off", "GOTOOLCHAIN=local", "CGO_ENABLED=0")
 	if goos != "" {
 		env = append(env, "GOOS="+goos)
@@ -140,7 +190,7 @@ func Load(withTests bool, goos string) (*Program, error) {
 	if err != nil {
 		return nil, err
 	}
-	p := &Program{Shared: map[string]interface{}{}, All: map[string]*packages.Package{}, Normalisations: notes, WithTests: withTests, GOOS: goos}
+	p := &Program{Shared: map[string]interface{}{}, All: map[string]*packages.Package{}, Normalisations: notes, WithTests: withTests, GOOS: goos, Overlay: overlay}
 	packages.Visit(pkgs, nil, func(pk *packages.Package) {
 		if p.Fset == nil && pk.Fset != nil {
 			p.Fset = pk.Fset
